@@ -16,7 +16,7 @@ CLAIMS = {
  'C02': E1('3/C02', 'For all valid sets within the PFC bounds and ALL queries up to LMAX+1 bytes: locate returns the rank for members and 0 otherwise; extract of 0 / any id > n (full size_t range) is NULL with length 0; the ID-range guard of extract is decided for all 12 default-constructible kinds over the full (id, elements) range; pointer and bounds checks on.', BASE_NOTE),
  'C03': E1('3/C03', 'PFC whole kind within the bounds: IDs are ranks in unsigned-byte order (extract(i) < extract(j) for all i<j, extract(i) = i-th input string, locateRank/extractRank consistent). Other order-preserving kinds are outside solver reach (DESIGN.md).', BASE_NOTE),
  'C04': E1('3/C04', 'PFC whole kind within the bounds and ALL patterns up to LMAX+1 bytes: locatePrefix yields exactly the contiguous ascending ID range of the members that start with the pattern (empty stream with NORESULT limits otherwise), extractPrefix exactly those strings; IteratorDictIDContiguous unit over all limits.', BASE_NOTE),
- 'C06': E1('3/C06', 'PFC whole kind within the bounds: save -> kind loader / generic loader -> same answers, bytes consumed == bytes written, re-save identical; save/load/save units for LogSequence, DAC_VLS, DAC_BVLS, BitSequenceRG (generic bitmap loader), BitString; generic dictionary loader\'s tag dispatch for all 2^32 tags.', BASE_NOTE),
+ 'C06': E1('3/C06', 'PFC whole kind within the bounds: save -> kind loader / generic loader -> same answers, bytes consumed == bytes written, re-save identical; save/load/save units for LogSequence, DAC_VLS, DAC_BVLS, BitSequenceRG (generic bitmap loader), BitString; generic dictionary loader\'s tag dispatch for all 2^32 tags; PFC header fields (elements over 2^64, maxlength/buckets/bucketsize over 2^32) transported unchanged by both loaders and by re-save.', BASE_NOTE),
  'C07': E1('3/C07', 'Every obligation of every E1 property runs with cbmc\'s pointer/bounds/use-after-free/double-free checks and unwinding assertions (termination within the bound). C07 adds: PFC construction with the MEMALLOC hook set to 2..4 so the text buffer must grow (Reallocate exercised), 2-call API histories incl. iterators, save and destroy, Reallocate unit, DAC_VLS access bounds, duplicate-skipping iterator.', BASE_NOTE + '; hook LIBCSD_VERIF_MEMALLOC'),
  'C08': E1('3/C08', 'PFC within the bounds: two saves identical, build-twice images byte-identical (uninitialised heap bytes are nondeterministic in the model, so a stray byte fails), save of a loaded image reproduces it, image unchanged by a query; same for DAC_VLS/DAC_BVLS/LogSequence units.', BASE_NOTE),
  'C09': E2('3/C09', 'Real HASHRPDACBlocks constructor + real WorkerPool under every schedule within the bounds: blocks land in input order, every slot filled before the constructor returns, same parts/indexes for 1 and 2 workers; the per-block builder is abstracted by name.', BASE_NOTE + '; rt/e2_rt.h primitive model'),
@@ -25,7 +25,7 @@ CLAIMS = {
  'C12': E1('3/C12', 'Two PFC dictionaries built from the same symbolic input with different bucket sizes (incl. 0 and 1, which must be replaced by 2) answer every locate / extract(any id) / locatePrefix query identically, for all inputs within the bounds.', BASE_NOTE),
  'C13': E1('3/C13', 'PFC extractTable within the bounds: exactly n strings, k-th == extract(k), reported length == strlen, hasNext false afterwards; extractPrefix iterators from every in-bucket offset; ID iterators (contiguous, duplicates with the caller-written sentinel, non-contiguous) and the vector string iterator over symbolic backing arrays.', BASE_NOTE),
  'C14': E1('3/C14', 'PFC within the bounds: for ALL query pairs (A,B) the answer to A is the same before and after B with an iterator left open, pattern buffers (incl. guard byte) unchanged, and the saved image of the object is bit-identical before and after any single query (inductive step for histories of any length).', BASE_NOTE),
- 'C15': E1('3/C15', 'PFC within the bounds: numElements == n and len_max <= maxLength <= len_max+1 on the fresh and on the reloaded object.', BASE_NOTE),
+ 'C15': E1('3/C15', 'PFC within the bounds: numElements == n and len_max <= maxLength <= len_max+1 on the fresh and on the reloaded object; for a loaded image numElements/maxLength equal the header values over their full 64/32-bit range (both loaders).', BASE_NOTE),
  'C16': E1('3/C16', 'Unsupported operations return NULL/NORESULT and leave the pattern alone on all 12 default-constructible kinds (symbolic patterns/ranks); every kind\'s loader returns NULL on ANY other tag (all 2^32-1 values) having consumed exactly 4 bytes; generic loader dispatch for all 2^32 tags.', BASE_NOTE),
  'C17': E1('3/C17', 'VByte/VB2 round trip for all 2^32 values; LogSequence set/get for every width 1..64, symbolic positions/values, overwrites, save/load; libcds 32-bit field kernels; DAC_VLS/DAC_BVLS access of every sequence incl. length-1, maximal and last sequence, save/load.', BASE_NOTE),
  'C18': E1('3/C18', 'Coder half only: StatCoder::encodeSymbol/encodeString emit, for ANY code table (codeword lengths 1..20 bits, i.e. longer than the 16-bit decoding chunk), any 2-4 symbol string and any start bit offset, exactly the concatenation of the codewords with exact byte count / offset and zero padding; DecodingTree save is repeatable. NOT decided (stated in DESIGN.md): Huffman / Hu-Tucker code construction, DecodingTableBuilder (std::map) and chunked table decoding.', BASE_NOTE),
